@@ -21,6 +21,7 @@ import PoetryVerif.Proofs.MarkerEval
 import PoetryVerif.Proofs.MarkerLeaf
 import PoetryVerif.Proofs.MarkerLeafVersion
 import PoetryVerif.Proofs.MarkerLeafVersionText
+import PoetryVerif.Proofs.MarkerLeafCompat
 import PoetryVerif.Proofs.VersionParse
 
 set_option linter.unusedSimpArgs false
@@ -186,6 +187,38 @@ theorem leaf_agree_python_full_version_three (E : Env) (sop : Spec.SOp) (ops : S
 example : (Spec.SOp.lt, "<") ∈ orderedOps ∧ 2 ≤ [8, 1].length ∧
     cxEnvV.get? "python_full_version" = some (Version.relText [3, 10, 1]) := ⟨by decide, by decide, by decide +kernel⟩
 
+/-- **`~=` at token level**: final literal with at least two release components (any length), final candidate:
+the range `[V, compatHigh V)` the parser builds admits the candidate exactly when the reference's
+`>= V` and prefix match `== V[:-1].*` hold -/
+theorem leaf_agree_compat_token (lit ev : String) (V v : Version) (hl : parseFinal lit = some V)
+    (he : parseFinal ev = some v) (hp : 2 ≤ V.release.length) :
+    ∃ c b, clauseVC .compat V = .ok c ∧ c.allows v = .ok b ∧ versionOp "~=" V v = some b := by
+  obtain ⟨p1, f1⟩ := parseFinal_some hl
+  obtain ⟨p2, f2⟩ := parseFinal_some he
+  exact compat_token_agree V v f1 f2 (Version.parse_wf lit V p1) (Version.parse_wf ev v p2) hp
+
+example : parseFinal "3.8.1" = some ⟨0, [3, 8, 1], none, none, none, none, "3.8.1"⟩ ∧
+    2 ≤ ([3, 8, 1] : List Nat).length := ⟨by decide +kernel, by decide⟩
+
+/-- **`python_version ~= "X.Y…"`, text level** -/
+theorem leaf_agree_python_version_compat (E : Env) (x : Nat) (r : List Nat) (hr : 1 ≤ r.length) (x' : Nat)
+    (r' : List Nat) (hev : E.get? "python_version" = some (Version.relText (x' :: r'))) :
+    ∃ b, itemV E "python_version" "~=" (Version.relText (x :: r)) false = .ok b ∧
+      evalItem "python_version" "~=" (Version.relText (x :: r)) false E = some b := by
+  obtain ⟨b, h1, h2, _⟩ := agree_pv_compat E x r hr x' r' hev
+  exact ⟨b, h1, h2⟩
+
+/-- **`python_full_version ~= "X.Y.Z…"`, text level** -/
+theorem leaf_agree_python_full_version_compat (E : Env) (x : Nat) (r : List Nat) (hr : 2 ≤ r.length) (x' : Nat)
+    (r' : List Nat) (hev : E.get? "python_full_version" = some (Version.relText (x' :: r'))) :
+    ∃ b, itemV E "python_full_version" "~=" (Version.relText (x :: r)) false = .ok b ∧
+      evalItem "python_full_version" "~=" (Version.relText (x :: r)) false E = some b := by
+  obtain ⟨b, h1, h2, _⟩ := agree_pfv3_compat E x r hr x' r' hev
+  exact ⟨b, h1, h2⟩
+
+example : 2 ≤ ([10, 0] : List Nat).length ∧
+    cxEnvV.get? "python_full_version" = some (Version.relText [3, 10, 1]) := ⟨by decide, by decide +kernel⟩
+
 /-! ### the domain -/
 
 /-- the comparison operators of version variables -/
@@ -221,6 +254,15 @@ inductive ProvedLeaf (E : Env) : String → String → String → Bool → Prop
   | pfv3 (sop : Spec.SOp) (ops : String) (x : Nat) (r : List Nat) (x' : Nat) (r' : List Nat) :
       (sop, ops) ∈ orderedOps → 2 ≤ r.length → E.get? "python_full_version" = some (relLit (x' :: r')) →
       ProvedLeaf E "python_full_version" ops (relLit (x :: r)) false
+  /-- `python_version ~= "X.Y…"` (two or more components) -/
+  | pvCompat (x : Nat) (r : List Nat) (x' : Nat) (r' : List Nat) : 1 ≤ r.length →
+      E.get? "python_version" = some (relLit (x' :: r')) →
+      ProvedLeaf E "python_version" "~=" (relLit (x :: r)) false
+  /-- `python_full_version ~= "X.Y.Z…"` (three or more components; with two the padding changes the meaning:
+  `counterexample_compat_two_component`) -/
+  | pfvCompat (x : Nat) (r : List Nat) (x' : Nat) (r' : List Nat) : 2 ≤ r.length →
+      E.get? "python_full_version" = some (relLit (x' :: r')) →
+      ProvedLeaf E "python_full_version" "~=" (relLit (x :: r)) false
 
 /-- every leaf shape of the property's domain (variable kind × operator × literal shape), on an environment
 that defines the variable with, for version variables, the text `X'.Y'…` of a final release -/
@@ -233,14 +275,6 @@ inductive DomainLeaf (E : Env) : String → String → String → Bool → Prop
   /-- `"lit" in name` / `"lit" not in name`: substring -/
   | reversed (n op v ev : String) : n ∈ stringVarNames → op ∈ ["in", "not in"] → PlainTok v →
       E.get? (canonVar n) = some ev → DomainLeaf E n op v true
-  /-- `python_version ~= "X.Y…"` (two or more components) -/
-  | pvCompat (x : Nat) (r : List Nat) (x' : Nat) (r' : List Nat) : 1 ≤ r.length →
-      E.get? "python_version" = some (relLit (x' :: r')) →
-      DomainLeaf E "python_version" "~=" (relLit (x :: r)) false
-  /-- `python_full_version ~= "X.Y.Z…"` (three or more components) -/
-  | pfvCompat (x : Nat) (r : List Nat) (x' : Nat) (r' : List Nat) : 2 ≤ r.length →
-      E.get? "python_full_version" = some (relLit (x' :: r')) →
-      DomainLeaf E "python_full_version" "~=" (relLit (x :: r)) false
   /-- `python_version in "X.Y …"` -/
   | pvList (op : String) (x0 : Nat × Nat) (rest : List (String × (Nat × Nat))) (x' : Nat) (r' : List Nat) :
       op ∈ ["in", "not in"] → (∀ p ∈ rest, SepRun p.1) →
@@ -272,6 +306,8 @@ theorem leaf_agree_partial (E : Env) (n op v : String) (sw : Bool) (h : ProvedLe
   | .pv sop ops x r x' r' hop hev => exact agree_pv E sop ops hop x r x' r' hev
   | .pfv2 sop ops x y x' r' hop hev => exact agree_pfv2 E sop ops hop x y x' r' hev
   | .pfv3 sop ops x r x' r' hop hr hev => exact agree_pfv3 E sop ops hop x r hr x' r' hev
+  | .pvCompat x r x' r' hr hev => exact agree_pv_compat E x r hr x' r' hev
+  | .pfvCompat x r x' r' hr hev => exact agree_pfv3_compat E x r hr x' r' hev
 
 example : ProvedLeaf exEnv "os.name" "!=" "nt" false :=
   .strNe "os.name" "nt" "nt" (by decide) plainTok_nt (by decide)
